@@ -55,14 +55,29 @@ Print Assumptions c21_hex_token.
 Example c21_hex_token_nonvacuous : forallb is_uhex [48; 65; 70] = true.
 Proof. reflexivity. Qed.
 
-Theorem c21_name_token : forall n rest, forallb regular_char n = true -> delim_follows rest ->
+(** names as the writer emits them since fix_name_escape (escape_pdf_name, #XX escaping): EVERY name of
+    bytes — white space, delimiters, '#', controls, bytes >= 0x80 — is scanned whole and decodes to itself *)
+Theorem c21_name_token : forall n rest, bytes_ok n = true -> delim_follows rest ->
+  scan_name (esc_name n ++ rest) = (esc_name n, rest) /\ decode_name (esc_name n) = Some n.
+Proof. intros. split; [apply scan_name_esc; assumption | apply decode_name_esc; assumption]. Qed.
+Check c21_name_token : forall n rest, bytes_ok n = true -> delim_follows rest ->
+  scan_name (esc_name n ++ rest) = (esc_name n, rest) /\ decode_name (esc_name n) = Some n.
+Print Assumptions c21_name_token.
+Example c21_name_token_nonvacuous : bytes_ok [77; 121; 32; 73; 109; 35; 47; 40; 0; 195; 169] = true /\ delim_follows [32]
+  /\ esc_name [77; 121; 32; 35] = [77; 121; 35; 50; 48; 35; 50; 51].
+Proof. repeat split; reflexivity. Qed.
+(** record about raw emission (the writer before fix_name_escape): regular names only; and the escaper
+    leaves names made of kept characters unchanged *)
+Theorem c21_name_token_pinned : forall n rest, forallb regular_char n = true -> delim_follows rest ->
   scan_name (n ++ rest) = (n, rest) /\ decode_name n = Some n.
 Proof. intros. split; [apply scan_name_regular; assumption | apply decode_name_regular; assumption]. Qed.
-Check c21_name_token : forall n rest, forallb regular_char n = true -> delim_follows rest ->
+Check c21_name_token_pinned : forall n rest, forallb regular_char n = true -> delim_follows rest ->
   scan_name (n ++ rest) = (n, rest) /\ decode_name n = Some n.
-Print Assumptions c21_name_token.
-Example c21_name_token_nonvacuous : forallb regular_char [73; 109; 0; 195; 169] = true /\ delim_follows [32].
-Proof. split; reflexivity. Qed.
+Print Assumptions c21_name_token_pinned.
+Theorem c21_esc_name_plain_identity : forall n, forallb iso_plain n = true -> esc_name n = n.
+Proof. exact esc_name_plain. Qed.
+Check c21_esc_name_plain_identity : forall n, forallb iso_plain n = true -> esc_name n = n.
+Print Assumptions c21_esc_name_plain_identity.
 
 (** the "extreme numeric arguments" clause: refuted for operands beyond f32::MAX (known finding
     C21-f32-overflow) … *)
@@ -126,14 +141,16 @@ Print Assumptions c21_op_roundtrip.
     /ActualText property dictionaries, EMC, and the numeric/operand-less operators of the partial
     theorem — with every f64 operand (NaN, infinities, -0, denormals, huge values) parses back to the
     source operators with each operand rounded as documented.  [regular] excludes only: Raw, names
-    with delimiter/#/non-UTF-8 bytes (C30-name-raw), lower-case/non-hex hex operands, comments
-    containing LF, MCIDs >= 2^31. *)
+    that are not valid UTF-8 (a Rust String cannot hold one; names with white space, delimiters or '#'
+    are INCLUDED since fix_name_escape), lower-case/non-hex hex operands, comments containing LF,
+    MCIDs >= 2^31. *)
 Theorem c21_ops_roundtrip : forall ops, regular ops = true -> parse (serialize ops) = expected ops.
 Proof. exact ops_roundtrip. Qed.
 Check c21_ops_roundtrip : forall ops, regular ops = true -> parse (serialize ops) = expected ops.
 Print Assumptions c21_ops_roundtrip.
-Example c21_ops_roundtrip_nonvacuous : regular sample_ops = true /\ length sample_ops = 22%nat.
-Proof. split; reflexivity. Qed.
+Example c21_ops_roundtrip_nonvacuous : regular sample_ops = true /\ length sample_ops = 22%nat
+  /\ regular [ONamed (s2b "Do") (s2b "My Image"); OFont (s2b "A#20 (b)") false 12 0; OBdc (s2b "P /x") 3; ONamed (s2b "gs") [195; 169; 0; 37]] = true.
+Proof. repeat split; reflexivity. Qed.
 
 (** WHAT THE DOCUMENTED ROUNDING IS, against the source operand.  For a finite operand (sign s, value
     m * 2^e) printed with k decimals, with n the printed integer (units of 10^-k) and 2^e written
